@@ -17,7 +17,7 @@ RULE = ('abstract models from harness/py/gen_model.py: 1..3 templates with value
         'flags, 0..2 branchpoints, init, 0..6 edges (self loops, parallel edges, branchpoint endpoints, controllable '
         'absent/true/false, select/guard/synchronisation/assignment/probability labels), 0..6 global declarations, full, partial '
         'and chained instantiations, a system line with priorities; rendered to XML with layout noise (DOCTYPE, CDATA vs entity '
-        'escaping, attribute order, comments labels, nails, instantiations inside <system>, white space). Oracle: projection of '
+        'escaping, attribute order, comments labels, nails, instantiations inside <system>, white space, exponentialrate label before or after the invariant label). Oracle: projection of '
         'the built document == projection computed by the generator, (1) exactly after DocumentBuilder only, (2) after the '
         'Document* overload with the documented invariant rewrite normalised. Non-trivial: >= 2 locations and an edge with '
         '>= 2 labels, or >= 2 templates, or a partial instantiation; distinct = distinct rendered XML texts.')
@@ -25,7 +25,7 @@ RULE = ('abstract models from harness/py/gen_model.py: 1..3 templates with value
 NOISE = st.fixed_dictionaries({
     'doctype': st.booleans(), 'cdata': st.booleans(), 'attr_swap': st.booleans(), 'comments': st.booleans(), 'nails': st.booleans(),
     'inst_in_system': st.booleans(), 'ws': st.booleans(), 'indent': st.sampled_from(['\t', '  ', '']), 'nl': st.sampled_from(['\n', '\n\n', ' ']),
-    'empty_decl': st.booleans(), 'empty_param': st.booleans()})
+    'empty_decl': st.booleans(), 'empty_param': st.booleans(), 'rate_first': st.booleans()})
 
 
 def classes_of(m):
